@@ -303,3 +303,36 @@ def field_scripts(thorough=False):
                         d[where] = t.format(D=_addr(df, ds), S=_addr(sf, ss))
                         out.append(FIELD_SKELETON % d)
     return out
+
+
+# ---------------------------------------------------------------------------------------------
+# rear / raze: every schedule kind, clone name and frame form
+# ---------------------------------------------------------------------------------------------
+
+REAR_SKELETON = """house h1
+logger lg to c14logs/
+framer fa be active first a
+  frame a
+    %s
+  frame b
+  frame c in b
+framer mo be moot first m
+  frame m
+framer ax be aux first x
+  frame x
+"""
+
+
+def rear_scripts():
+    out = []
+    for who in ["mo", "fa", "ax", "lg", "nope", "me"]:
+        for asn in ["", " as mine", " as t1", " as me"]:
+            for be in ["", " be aux", " be active", " be inactive", " be slave", " be moot", " be bogus", " be"]:
+                for fr in ["", " in frame b", " in frame c", " in frame me", " in frame a", " in frame nope",
+                           " in frame", " in framer fa", " in frame b in framer fa"]:
+                    out.append(REAR_SKELETON % ("rear %s%s%s%s" % (who, asn, be, fr)))
+    for who in ["all", "first", "last", "t1", "mine", ""]:
+        for fr in ["", " in frame", " in frame me", " in frame b", " in frame nope", " in frame b in framer fa", " in b"]:
+            out.append(REAR_SKELETON % ("raze %s%s" % (who, fr)))
+            out.append(REAR_SKELETON % ("rear mo as mine be aux in frame b\n    raze %s%s" % (who, fr)))
+    return out
